@@ -4490,3 +4490,37 @@ def self1(proj, rep, modules=None):
         mm = proj.mod('numqi.utils')
         rep.ok('SELF1', 'scope', f'{n} binary operations / conditionals / dictionary displays scanned', mm, mm.tree, text='self1 sweep')
     return n
+
+
+RULE_CJ1 = ('CJ1: `.real` taken of a bilinear self-product - `np.dot(x, x).real`, `(x @ x).real`, `np.sum(x * x).real`, `np.inner(x, x).real` - states that x may be complex, '
+            'and then the product needs a conjugate (`np.vdot(x, x)`, `x.conj() @ x`): without it the value is sum x_k^2, not the squared norm sum |x_k|^2.')
+
+
+def cj1(proj, rep, modules=None):
+    rep.rule('CJ1', RULE_CJ1)
+    n = 0
+    pure = lambda e: not any(isinstance(x, (ast.Call, ast.Lambda)) for x in ast.walk(e)) and not isinstance(e, ast.Constant)
+    for m in proj.modules.values():
+        if not _in_scope(m, modules):
+            continue
+        for a in ast.walk(m.tree):
+            if not (isinstance(a, ast.Attribute) and a.attr == 'real'):
+                continue
+            n += 1
+            v = a.value
+            pair = None
+            if isinstance(v, ast.Call) and ast.unparse(v.func).split('.')[-1] in ('dot', 'inner', 'matmul') and len(v.args) == 2:
+                pair = (v.args[0], v.args[1])
+            elif isinstance(v, ast.BinOp) and isinstance(v.op, ast.MatMult):
+                pair = (v.left, v.right)
+            elif isinstance(v, ast.Call) and ast.unparse(v.func).split('.')[-1] == 'sum' and v.args and isinstance(v.args[0], ast.BinOp) and isinstance(v.args[0].op, ast.Mult):
+                pair = (v.args[0].left, v.args[0].right)
+            if pair and pure(pair[0]) and ast.dump(pair[0]) == ast.dump(pair[1]):
+                rep.touch(m)
+                rep.violation('CJ1', m.name, f'`{ast.unparse(a)[:60]}`: the self-product has no conjugate although `.real` admits a complex `{ast.unparse(pair[0])[:20]}`; for a complex '
+                              f'vector this is sum x^2, not the squared norm', m, a)
+    rep.count('CJ1.real_reads', n)
+    if n:
+        mm = proj.mod('numqi.utils')
+        rep.ok('CJ1', 'scope', f'{n} `.real` reads scanned', mm, mm.tree, text='cj1 sweep')
+    return n
